@@ -722,6 +722,94 @@ def rule_hashord(ctx):
     return r
 
 
+COMPLETION_SOURCES = ("as_completed", "imap_unordered")
+
+
+def rule_schedord(ctx):
+    """A seeded operation that farms work out must not let the *completion order* of its workers
+    decide the result: iterating ``as_completed`` / ``imap_unordered`` (or the ``done`` set of
+    ``wait``) into a consumer that keeps the first of equal candidates (``min``/``max``/``sorted``
+    with a key, a strict best-so-far comparison, list building) makes the result depend on the
+    scheduler although the seed is the same."""
+    r = RuleResult("C17-SCHEDORD", "completion order of workers does not reach a seeded result", 0)
+    for m in ctx.p.modules.values():
+        for f in m.all_funcs:
+            for n in walk_local(f.node):
+                if not isinstance(n, ast.Call):
+                    continue
+                d = dotted(n.func) or (n.func.attr if isinstance(n.func, ast.Attribute) else "")
+                last = d.split(".")[-1]
+                is_wait = last == "wait" and ("futures" in d or d == "wait") and n.args
+                if last not in COMPLETION_SOURCES and not is_wait:
+                    continue
+                key = ctx.key(f, "C17-SCHEDORD", last)
+                seeded = "seed" in f.params or "rng" in f.params
+                if f.cls is not None:
+                    for c in f.cls.mro():
+                        init = c.methods.get("__init__")
+                        if init is not None and ("seed" in init.params or "rng" in init.params):
+                            seeded = True
+                if not seeded:
+                    r.exempt(key, C.loc(f, n), "the enclosing operation takes no seed (nothing to reproduce)")
+                    continue
+                cons, how = _sched_consumer(f, n)
+                if cons == "sensitive":
+                    r.violation(key, C.loc(f, n), f"results are taken in the order the workers finish and "
+                                f"{how}: with the same seed the answer depends on the scheduler")
+                else:
+                    r.ok(key, C.loc(f, n), f"completion order is irrelevant: {how}")
+    if not getattr(ctx, "_is_positive_example", False) and not r.violations:
+        r.note(C.positive_example(
+            ctx, rule_schedord,
+            [("cotengra/_c17_sched_example.py", None,
+              "import concurrent.futures\n\n\n"
+              "def _c17_sched_example(pool, jobs, seed=None):\n"
+              "    fs = [pool.submit(j, seed) for j in jobs]\n"
+              "    return min((f.result() for f in concurrent.futures.as_completed(fs)), key=lambda x: x[1])\n")],
+            "_c17_sched_example"))
+    return r
+
+
+def _sched_consumer(func, node):
+    parents = func.module.parents
+    par = parents.get(node)
+    # x = wait(fs) ... -> treat the call site itself as sensitive unless only len()/bool is taken
+    if isinstance(par, ast.comprehension) and par.iter is node:
+        comp = parents.get(par)
+        user = parents.get(comp)
+        if isinstance(comp, (ast.SetComp,)):
+            return "insensitive", "collected into a set"
+        if isinstance(user, ast.Call):
+            d = (dotted(user.func) or "").split(".")[-1]
+            if d in ("min", "max", "sorted") and any(k.arg == "key" for k in user.keywords):
+                return "sensitive", f"reduced by {d}(..., key=...), which keeps the first of equal candidates"
+            if d in ("sum", "any", "all", "set", "frozenset", "len", "min", "max", "sorted"):
+                return "insensitive", f"reduced by {d}() over whole values"
+        return "sensitive", "materialised in completion order"
+    if isinstance(par, ast.For) and par.iter is node:
+        body = par.body
+        strict = any(isinstance(x, ast.If) and any(isinstance(c, ast.Compare) and
+                     isinstance(c.ops[0], (ast.Lt, ast.Gt, ast.LtE, ast.GtE)) for c in ast.walk(x.test))
+                     and any(isinstance(y, ast.Assign) for y in ast.walk(x)) for s in body for x in ast.walk(s))
+        appends = any(isinstance(x, ast.Call) and isinstance(x.func, ast.Attribute)
+                      and x.func.attr in ("append", "extend", "insert") for s in body for x in ast.walk(s))
+        early = any(isinstance(x, (ast.Break, ast.Return)) for s in body for x in ast.walk(s))
+        if strict:
+            return "sensitive", "a best-so-far comparison keeps the first (or last) of equal candidates"
+        if appends or early:
+            return "sensitive", "the loop appends/returns in completion order"
+        return "insensitive", "the loop body performs commutative updates only"
+    if isinstance(par, ast.Call):
+        d = (dotted(par.func) or "").split(".")[-1]
+        if d in ("min", "max", "sorted") and any(k.arg == "key" for k in par.keywords):
+            return "sensitive", f"reduced by {d}(..., key=...)"
+        if d in ("list", "tuple", "next", "iter", "enumerate", "zip", "map"):
+            return "sensitive", f"consumed in completion order by {d}()"
+        if d in ("len", "set", "frozenset", "sum", "any", "all"):
+            return "insensitive", f"consumed by {d}()"
+    return "sensitive", "handed on in completion order"
+
+
 def rule_noshare(ctx):
     """Shared with C04-COPY: 'regardless of what was called before' includes earlier
     non-inplace calls on the same tree - they work on a copy, and the copy shares no
@@ -733,4 +821,4 @@ def rule_noshare(ctx):
                         lambda i: True, 20)
 
 
-RULES = [rule_plumb, rule_global, rule_preset, rule_hashord, rule_noshare]
+RULES = [rule_plumb, rule_global, rule_preset, rule_hashord, rule_schedord, rule_noshare]
